@@ -54,6 +54,7 @@ fn data() -> Object {
     d.insert("key_size".into(), s("size"));
     d.insert("key_missing".into(), s("nope"));
     d.insert("sidx".into(), s("1"));
+    d.insert("fidx".into(), Value::scalar(1.5f64));
     d.insert("ptr".into(), obj(vec![("i", i(1)), ("k", s("k"))]));
     d.insert("arrkey".into(), arr(vec![i(1)]));
     d
@@ -73,6 +74,14 @@ fn steps() -> Vec<Expr> {
     v.push(path("ptr", &["i"]));
     v.push(path("ptr", &["k"]));
     v.push(path("ptr", &["zz"]));
+    // not positions: decimals (also whole ones), strings that merely look numeric
+    for f in [1.5f64, -0.5, 0.0, 1.0, 2.5, -1.0] {
+        v.push(Expr::Lit(Value::scalar(f)));
+    }
+    for k in ["1.5", "nan", "1e0", "0.0", " 1", "1 "] {
+        v.push(lit_s(k));
+    }
+    v.push(var("fidx"));
     v.push(Expr::Lit(Value::scalar(i64::MIN)));
     v.push(Expr::Lit(Value::scalar(i64::MAX)));
     v.push(Expr::Lit(Value::Nil));
@@ -122,6 +131,10 @@ fn spec_path(data: &Object, root: &str, idx: &[Expr]) -> Option<Result<Value, ()
                 None => return Some(Err(())),
             },
             (Value::Array(a), None, Some("size")) => Value::scalar(a.len() as i64),
+            // a string that is no integer and none of the three names is not a position
+            (Value::Array(_), None, Some(t)) if t.trim().parse::<i64>().is_err() && t.parse::<f64>().map(|f| f.fract() != 0.0 || !f.is_finite()).unwrap_or(true) => return Some(Err(())),
+            // a number with a fraction is not a position
+            (Value::Array(_), None, None) if sc.type_name() == "fractional number" && sc.to_float().map(|f| f.fract() != 0.0).unwrap_or(false) => return Some(Err(())),
             (Value::Object(o), _, _) => {
                 let key = sc.to_kstr().to_string();
                 match o.get(key.as_str()) {
@@ -270,6 +283,32 @@ pub fn run(ctx: &mut Ctx) {
             }
         }
     }
+    // --- wide collections: sizes around 64 / 128 / 256 entries, lookups of present and missing members ---
+    {
+        let sizes: Vec<usize> = (60..=70).chain(126..=130).chain(254..=258).collect();
+        for n in sizes {
+            let mut o = Object::new();
+            for k in 0..n {
+                o.insert(format!("k{:03}", k).into(), i(k as i64));
+            }
+            let mut dw = Object::new();
+            dw.insert("o".into(), Value::Object(o));
+            dw.insert("a".into(), arr((0..n as i64).map(i).collect()));
+            dw.insert("s".into(), s(&"\u{e9}".repeat(n)));
+            for idx in [
+                vec![lit_s("missing")], vec![lit_s("k000")], vec![lit_s(&format!("k{:03}", n - 1))], vec![lit_s(&format!("k{:03}", n))], vec![lit_s("size")],
+                vec![lit_s("missing"), lit_s("deeper")], vec![lit_s("first")],
+            ] {
+                path_case(ctx, &parser, "wide-object", "o", idx, false, &dw);
+            }
+            let n = n as i64;
+            for idx in [vec![lit_i(n)], vec![lit_i(n - 1)], vec![lit_i(-n)], vec![lit_i(-n - 1)], vec![lit_s("size")], vec![lit_s("last")], vec![lit_s("missing")]] {
+                path_case(ctx, &parser, "wide-array", "a", idx, false, &dw);
+            }
+            path_case(ctx, &parser, "wide-string", "s", vec![lit_s("size")], false, &dw);
+            path_case(ctx, &parser, "wide-string", "s", vec![lit_s("missing")], false, &dw);
+        }
+    }
     // --- the public `find` called directly (no runtime in front of it): every path of length 0..2 over
     // keys that exist, keys that do not, indices in and out of range ---
     {
@@ -350,7 +389,7 @@ pub fn run(ctx: &mut Ctx) {
         let exp = format!("{}", t.parse::<f64>().unwrap());
         lit_case(ctx, &parser, "float", &t, Some(exp));
     }
-    let alphabet: Vec<char> = "aB \t,<é\u{301}😀{}%|:.-_#'\"".chars().collect();
+    let alphabet: Vec<char> = "aB \t,<é\u{301}😀{}%|:.-_#'\"\\n".chars().collect();
     for _ in 0..sweeps {
         let q = if rng.chance(1, 2) { '\'' } else { '"' };
         let len = rng.below(8);
@@ -360,6 +399,10 @@ pub fn run(ctx: &mut Ctx) {
             continue;
         }
         lit_case(ctx, &parser, "string", &format!("{}{}{}", q, body, q), None);
+    }
+    // no escape sequences: a backslash denotes itself, also as the last character of a literal
+    for t in ["'\\'", "\"\\\"", "'C:\\temp\\'", "'a\\nb'", "'\\t'", "\"x\\\\\"", "'\\\\'"] {
+        lit_case(ctx, &parser, "string-backslash", t, None);
     }
     for t in ["true", "false", "nil", "null", "empty", "blank"] {
         lit_case(ctx, &parser, "keyword", t, None);
